@@ -84,12 +84,20 @@ def gen_case(rng, tier, pid, n):
     if want_cool:
         byname = {s.name: s for s in pool}
         forced = [byname[x] for x in rng.sample(["H", "He", "He+", "He++", "H+"], rng.randint(1, 5))]
+    if n > 1 and rng.random() < 0.15:
+        # two species whose names differ by letter case only (para-H2 / phosphino, para-H3+ / phosphonium)
+        byname = {s.name: s for s in pool}
+        forced = forced + [byname[x] for x in rng.choice([["pH2", "PH2", "H", "PH"], ["pH3+", "PH3+", "H2", "PH2+"], ["pH2", "PH2", "PH2+", "H+"]])
+                           if x in byname and byname[x] not in forced]
+        nsp, nre = max(nsp, 5), max(nre, 8)
     sub, reacs = netgen.random_network(rng, pool, nsp, nre, electron_spellings=espell, indexed=indexed,
                                        forced=forced)
     if pid == "C04":
         reacs = balanced_reactions(rng, sub, nre)
     used = {s.key for r in reacs for s in r.re + r.pr}
     required = [s for s in sub if s.key not in used and rng.random() < 0.5]
+    if used and rng.random() < 0.3:     # declaring a species that also reacts is legal and changes nothing
+        required += [s for s in sub if s.key in used and rng.random() < 0.3]
     if n == 1:
         required = list(sub)
     entry = rng.choice(["api", "api", "native", "mixed"])
@@ -113,6 +121,10 @@ def gen_case(rng, tier, pid, n):
                     terms.append((fact, deps))
                 mods.append((tgt, terms))
     ratemod = {}
+    if pid == "C03" and reacs and indexed and rng.random() < 0.3:
+        for r in reacs:
+            r.idx += 1000 * rng.randint(1, 9)          # database-style indices, far away from the positions
+        ratemod[rng.choice(reacs).idx] = rng.choice(["0.0", "1.0e-10"])
     if pid == "C13" and reacs and rng.random() < 0.8:
         shared = None
         if indexed and rng.random() < 0.4 and len(reacs) >= 2:
@@ -504,9 +516,16 @@ def run(pid: str, argv):
         descs = []
         for k in range(3 if tier == "quick" else 20):
             d = c20.gen_desc(chk.rng, k)
+            while k == 0 and d["elements"] == c20.UPPER_ELEMENTS:
+                d = c20.gen_desc(chk.rng, k)
             d["allowed"], d["required"], d["cooling"] = [], [], []
             if d["elements"] != c20.UPPER_ELEMENTS:
-                d["rate_modifier"] = {str(chk.rng.choice([1, 2, 5])): chk.rng.choice(["1.0e-10", "2.0 * zeta"]), "7": "1e-9*exp(-10.0/Tgas)"}
+                d["rate_modifier"] = {str(chk.rng.choice([1, 2, 5])): chk.rng.choice(["1.0e-10", "2.0 * zeta", 0.0, 0]),
+                                      "7": chk.rng.choice(["1e-9*exp(-10.0/Tgas)", 0.0])}
+                if not any(isinstance(v, str) for v in d["rate_modifier"].values()) or len(descs) == 0:
+                    d["rate_modifier"]["3"] = "2.0 * zeta"
+                if len(descs) == 0:
+                    d["rate_modifier"]["1"] = 0.0          # a reaction switched off with a number, always
                 d["ode_modifier"] = {chk.rng.choice(["H2", "CO"]): {"factors": ["1e-3", "-2.0*k[0]"], "reactants": [["H"], ["CO", "He"]]}}
                 d.pop("ode_modifier_terms", None)
                 d["ode_modifier_cuts"] = [1] if chk.rng.random() < 0.5 else []    # one or two occurrences of the option
@@ -676,6 +695,19 @@ def oracle_c03(chk, case, net, rd, rds):
     batch_check(chk, case, rd, ("fex", "Fex", "jac", "Jac"))
     summ = case_summary(case)
     b = rd.backend
+    # -- every rate-array subscript written by EvalRates lies inside k[NREACTIONS], and every slot is written
+    if case["reacs"]:
+        ks = [i for i, _, _ in rd.rates("k")]
+        oob = [i for i in ks if not 0 <= i < rd.nreac]
+        if oob:
+            chk.violation({"kind": "rate-subscript-out-of-bounds", "backend": b},
+                          f"EvalRates writes k[{oob[0]}] but the array is declared k[NREACTIONS] with NREACTIONS={rd.nreac}", input=summ)
+            return
+        unassigned = sorted(set(range(rd.nreac)) - set(ks))
+        if unassigned and rd.nreac == len(case["reacs"]):
+            chk.violation({"kind": "rate-slot-never-assigned", "backend": b},
+                          f"k[{unassigned[0]}] is read by the ODE but never assigned by EvalRates", input=summ)
+            return
     # -- declared sizes
     neq_decl = (rd.nspec + (1 if rd.thermal else 0)) or 1
     j = rd.jac()
